@@ -244,6 +244,7 @@ def evaluator(P, spec, rep):
     ret = P.tys(key, b["locals"][0]["ty"])
     rep.ob("C05.type|i64", "Result<i64," in ret.replace("std::result::", ""), "expressions are evaluated on i64 (%s)" % ret)
     M = absint.Machine(P, max_depth=4, opaque={"context::Context::get_expr"})
+    M.inline_loopy_from_root = True
     paths = M.explore(key, M.arg_unknowns(key))
     rep.count("paths of Expr::run", len(paths))
     if M.capped or M.unsupported:
@@ -313,7 +314,7 @@ def evaluator(P, spec, rep):
         for p in hits:
             rec_err = False
             for s, d in p.state.doms.items():
-                if isinstance(s, tuple) and s[0] == 's' and s[1].startswith("run(") and s[1].endswith("#d") and sx.dom_size(d) == 1 and sx.dom_min(d) == 1:
+                if isinstance(s, tuple) and s[0] == 's' and s[1].startswith("run") and "(self*" in s[1] and s[1].endswith("#d") and sx.dom_size(d) == 1 and sx.dom_min(d) == 1:
                     rec_err = True
             if not rec_err:
                 hits2.append(p)
@@ -425,7 +426,7 @@ def evaluator(P, spec, rep):
         vsym = None
         for p in cands:
             for s in p.state.doms:
-                if isinstance(s, tuple) and s[0] == 's' and re.search(r"^run\(self\*:Func\.1\*, .*:Ok\.0$", s[1]):
+                if isinstance(s, tuple) and s[0] == 's' and (("(self*:Func.1*," in s[1]) and s[1].endswith(":Ok.0") and s[1].startswith("run")):
                     vsym = s
         if "width" in fs:
             if len(oks) != 1 or oks[0].ret[3][0][0] != 'int' or vsym is None:
